@@ -274,6 +274,17 @@ impl<const TY: u8> SA<TY>
                     let h = if *caller { H::WCaller(ctx.weak_caller::<CallM, _>()) } else { H::WSender(ctx.weak_sender::<Msg>()) };
                     crate::client::put(*x, crate::client::new_handle(a, h));
                 }
+                Act::ShareAddr { x } => {
+                    if let Some(w) = ctx.weak_address() {
+                        let b: Box<dyn std::any::Any> = Box::new(w);
+                        let any = match TY {
+                            0 => AnyWAddr::T0(*b.downcast().expect("type 0")),
+                            1 => AnyWAddr::T1(*b.downcast().expect("type 1")),
+                            _ => AnyWAddr::T2(*b.downcast().expect("type 2")),
+                        };
+                        crate::client::put(*x, crate::client::new_handle(a, H::WAddr(any)));
+                    }
+                }
                 Act::Panic => panic!("scripted panic"),
                 Act::Fail => return Err(()),
                 Act::FailOnRestart => {
